@@ -44,7 +44,7 @@ pub fn layout_s() -> BoxedStrategy<Layout> {
             proptest::option::of(1u8..4),
         ),
         (
-            vec((any::<u8>(), select(vec!["", " comentario", "vector no", "#", " 1, CONSUMO, ACS, GASNATURAL, 99", " META x: y", " DEMANDA"])), 0..4),
+            vec((any::<u8>(), select(vec!["", " comentario", "vector no", "#", " 1, CONSUMO, ACS, GASNATURAL, 99", " METADATOS del edificio", " DEMANDA"])), 0..4),
             any::<bool>(),
             any::<bool>(),
             any::<bool>(),
